@@ -887,9 +887,23 @@ class DAGRunConcurrentManager(DAGRunManagerLike):
             if has_errors:
                 logger.debug('The subgraph should be stopped. There is an error in %s', name)
 
-                # The node will not get a result. The subgraph that waits for it (a OneOf candidate) must be woken up
-                # to find the error; the early exit of the recurrent dag reaches the node's descendants only if the
-                # failed node is close enough to the node.
+                # The node will not get a result of its own. The failure is kept as its result, as the failure of any
+                # node inside a OneOf subgraph is: the subgraph may be needed by another scope too (a consumer on the
+                # main path), which would otherwise wait for ever for something else than the Recurrent marker.
+                self._node_storage.set_node_result(
+                    node_id,
+                    next(
+                        self._node_storage.get_node_result(failed_node_id)
+                        for failed_node_id in self.__get_subgraph_nodes(recurrent_subgraph)
+                        if self._node_storage.exists_node_error(failed_node_id)
+                    ),
+                )
+                self._node_storage.delete_active_rec_subgraph(start_from_node_id, node_id)
+                self._additional_data.pop(start_from_node_id, None)
+
+                # The subgraph that waits for the node (a OneOf candidate) must be woken up to find the error; the
+                # early exit of the recurrent dag reaches the node's descendants only if the failed node is close
+                # enough to the node.
                 await self.__unlock_descendants(node_id)
                 return
 
